@@ -96,9 +96,11 @@ pub fn spawn(
                                 .map(|seq| seq + 1)
                                 .collect();
 
+                        // Wait for the watermark to advance before replying: a read that follows
+                        // the acknowledgement must see the write
                         let _ = config
                             .confirmation_ref
-                            .tell(UpdateConfirmationWithBroadcast {
+                            .ask(UpdateConfirmationWithBroadcast {
                                 partition_id,
                                 versions: confirmation_versions.clone(),
                                 confirmation_count,
